@@ -54,6 +54,20 @@ func (fr *frame) fmtArg(verb byte, flags string, a value) ([]value, bool) {
 				return conc(fmt.Sprintf("%q", s))
 			}
 		}
+		if fr.i.ctx.errText {
+			// the text of an error: symbolic bytes are rendered with one representative value
+			// each (see concValue) and the verb is applied natively
+			bs := strBytes(x)
+			b := make([]byte, len(bs))
+			for i, e := range bs {
+				c, ok := e.(uint8)
+				if !ok {
+					c = fr.concValue(e).(uint8)
+				}
+				b[i] = c
+			}
+			return conc(fmt.Sprintf("%"+flags+string(verb), string(b)))
+		}
 		return nil, false
 	case symv:
 		if x.k == types.Bool {
